@@ -61,6 +61,16 @@ theorem declared_type_attr_is_formal (S : Schema) (env : List (Nat × Nat))
     isFormal S env [(⟨S.xsiPrefix, S.typeLocal⟩, S.formalValue)] = true := by
   simp [isFormal, resolveAttr, hx, hdecl, isFormalValue]
 
+/-- **Serialising leaves the model alone, text trimming aside** (trees of any size, any table):
+what `PreMarshal` stores back has the same skeleton — types, attributes, children — as the model
+being serialised, and a second serialisation stores nothing new (for an idempotent trim such as
+`strings.TrimSpace`). -/
+theorem marshal_pure (S : Schema) (tr : String → String) (h : ∀ s, tr (tr s) = tr s) (n : Node) :
+    skel (stored S tr n) = skel n ∧ stored S tr (stored S tr n) = stored S tr n :=
+  ⟨stored_skel S tr n, stored_idem S tr h n⟩
+
+example : ∀ s : String, id (id s) = id s := fun _ => rfl
+
 /-! ## A miniature table on which the whole statement is decided (non-vacuity and the defect) -/
 
 /-- names: 1 SequenceFlow 2 id 3 conditionExpression 4 FormalExpression 5 Expression 6 language
@@ -116,6 +126,16 @@ theorem mini_marshal_pure :
     stored (mini false) id miniDoc = miniDoc := by
   refine ⟨by rfl, by rfl⟩
 
+/-! Non-vacuity of the one-level theorems: their hypotheses hold on the miniature table. -/
+example : pairwiseNoClash (elemFields (mini false) 0) = true ∧ pairwiseNoClash (attrFields (mini false) 3) = true ∧
+    (∀ f ∈ attrFields (mini false) 3, f.f.ns = 0) := by decide
+example : ∃ f, (elemFields (mini false) 1)[0]? = some f ∧
+    resolveElem ([] ++ (mini false).rootDecls) ⟨1, 3⟩ = some f.f.ns := ⟨_, rfl, by decide⟩
+example : (mini false).xsiPrefix ≠ 0 ∧ (mini false).rootDecls.lookup (mini false).xsiPrefix = none ∧
+    (mini true).rootDecls.lookup (mini true).xsiPrefix = some (mini true).xsiNs := by decide
+example : WellTyped (mini false) miniDoc ∧ WellTyped (mini false) miniDocInformal := by
+  unfold WellTyped; decide
+
 /-! ### value-typed expression fields (second defect found on the unchanged tree) -/
 
 /-- as `mini`, but the flow-like struct 1 holds its expression BY VALUE (`From AnExpression`, as
@@ -154,5 +174,7 @@ theorem mini2_roundtrip_by_value :
     valueExprFields (mini2 true) = [] ∧
     parse (mini2 true) (marshal (mini2 true) id miniDoc2) = some (norm (mini2 true) id [] miniDoc2) := by
   refine ⟨by decide, by rfl⟩
+
+example : WellTyped (mini2 false) miniDoc2 := by unfold WellTyped; decide
 
 end Bpmn.Props.C15
